@@ -35,7 +35,7 @@ inline Sim *&cur_sim() { static Sim *p = nullptr; return p; }
 
 struct Scenario {
   Sim s; std::vector<Action> actions; std::string prop;
-  std::vector<std::pair<int, std::string>> inject_log; std::map<int, int64_t> last_cookieless; std::vector<std::pair<int64_t, int>> src_changes;
+  std::vector<std::pair<int, std::string>> inject_log; struct ForgedFailure { int req; std::string kind; int rcode; int64_t t; size_t tx_seq; bool had_cookie, tcp; }; std::vector<ForgedFailure> forged_failures; std::map<int, int64_t> last_cookieless; std::vector<std::pair<int64_t, int>> src_changes;
   bool has_faults = false, has_reconfig = false, has_cancel = false, has_inject = false; bool has_other_faults = false;   // other = anything but a hard error on a read
   size_t nlines = 0;
 
@@ -71,7 +71,9 @@ struct Scenario {
   }
 
   // ---------------------------------------------------------------- adversary
-  void inject(const std::string &kind, int reqid) {
+  // `what` selects the content of the forged packet: an answer with forged data (default), or a failure reply (servfail / refused / notimp /
+  // formerr / nxdomain) - a forged failure must be ignored just as well: it would otherwise end the request, demote the server or strip EDNS
+  void inject(const std::string &kind, int reqid, const std::string &what = std::string()) {
     World &w = s.w;
     // newest transmission of this request; the request must still be pending
     auto rit = s.reqs.find(reqid); if (rit == s.reqs.end() || rit->second.calls > 0) { s.notes.push_back("inject skipped: request not live"); return; }
@@ -108,11 +110,13 @@ struct Scenario {
     if (!target || !target->open) { s.notes.push_back("inject: target socket closed"); return; }
     Prov pv; Tx ftx = tx; std::string saved_mode; bool cookie_forgery = kind == "nocookie" || kind == "badclientcookie";
     if (cookie_forgery && tx.server >= 0) { saved_mode = w.servers[(size_t)tx.server].cookie_mode; w.servers[(size_t)tx.server].cookie_mode = kind == "nocookie" ? "none" : "wrongclient"; }
-    Bytes reply = w.build_reply(ftx, O_ANSWER, pv, true, forgery);
+    int fo = what.empty() ? (int)O_ANSWER : outcome_from_name(what); if (fo != O_SERVFAIL && fo != O_REFUSED && fo != O_NOTIMP && fo != O_FORMERR && fo != O_NXDOMAIN) fo = O_ANSWER;
+    Bytes reply = w.build_reply(ftx, (Outcome)fo, pv, true, forgery);
     if (cookie_forgery && tx.server >= 0) w.servers[(size_t)tx.server].cookie_mode = saved_mode;
     pv.genuine = false; pv.forgery = forgery; pv.fd = target->fd; pv.txs_at_injection = w.txs.size(); w.provs.push_back(pv);
     w.deliver(*target, reply, from, 0, pv.serial);
     inject_log.push_back({reqid, kind}); s.w.injected++;
+    if (fo != O_ANSWER) { int rc = fo == O_SERVFAIL ? 2 : fo == O_REFUSED ? 5 : fo == O_NOTIMP ? 4 : fo == O_FORMERR ? 1 : 3; forged_failures.push_back({reqid, kind, rc, w.now_us, cur->seq, cur->has_cookie, cur->tcp}); }
   }
 
   // ---------------------------------------------------------------- interpreter
@@ -132,7 +136,7 @@ struct Scenario {
         else { long long v = atoll(x.c_str()); if (x.find("us") != std::string::npos) d = v; else if (x.find("ms") != std::string::npos) d = v * 1000; else d = v * 1000000; }
         if (d > 0 && d < ((int64_t)1 << 55) && S.w.now_us < ((int64_t)1 << 60)) S.w.now_us += d;
       } else if (a.op == "cancel") S.do_cancel();
-      else if (a.op == "inject" && a.a.size() >= 2) inject(a.a[0], atoi(a.a[1].c_str()));
+      else if (a.op == "inject" && a.a.size() >= 2) inject(a.a[0], atoi(a.a[1].c_str()), a.a.size() >= 3 ? a.a[2] : std::string());
       else if (a.op == "reinit") { if (S.ch) { { Sim::LibCall lc(S); ares_reinit(S.ch); } S.apply_servers(S.server_specs); S.reconfig_times.push_back(S.w.now_us); S.reconfig_ticks.push_back(++S.tick); } }
       else if (a.op == "setservers" && !a.a.empty()) {
         // "change" = the set of servers differs (re-ordering the same servers leaves cached answers as valid as before)
@@ -238,6 +242,20 @@ struct Scenario {
   void monitor_c05(RunResult &r) {
     Sim &S = s; World &w = S.w;
     std::map<uint32_t, const Prov *> bys; for (auto &p : w.provs) bys[p.serial] = &p;
+    // A forged *failure* reply must be ignored just like forged data: the request it targets may end with that failure status only if a genuine
+    // reply to one of its own transmissions said so.  (Judged for plain queries and for forgeries that are never indistinguishable from the real thing.)
+    if (!has_faults && !has_cancel && !has_reconfig) for (auto &ff : forged_failures) {
+      auto qi = S.reqs.find(ff.req); if (qi == S.reqs.end() || qi->second.calls != 1) continue; const Req &q = qi->second;
+      if (q.kind != "query" && q.kind != "send" && q.kind != "lquery" && q.kind != "lsend") continue;
+      bool decidable = ff.kind == "wrongid" || ff.kind == "wrongname" || ff.kind == "wrongtype" || ff.kind == "wrongclass" || ff.kind == "wrongsrc" || ff.kind == "wrongcase" || ((ff.kind == "badclientcookie" || ff.kind == "nocookie") && ff.had_cookie && !ff.tcp);
+      if (!decidable) continue;
+      int want_status = ff.rcode == 2 ? ARES_ESERVFAIL : ff.rcode == 5 ? ARES_EREFUSED : ff.rcode == 4 ? ARES_ENOTIMP : ff.rcode == 1 ? ARES_EFORMERR : ARES_ENOTFOUND;
+      r.counters["c05.forged_failures_judged"]++;
+      if (q.status != want_status) continue;
+      bool genuine_said_so = false; for (auto &p : w.provs) if (p.genuine && p.tx != (size_t)-1 && p.tx < w.txs.size() && w.txs[p.tx].req == q.id && (p.rcode & 0xf) == ff.rcode) genuine_said_so = true;
+      if ((ff.kind == "badclientcookie" || ff.kind == "nocookie")) { const Tx *last = nullptr; for (auto &t : w.txs) if (t.req == q.id && t.seq < q.tx_at_end) last = &t; if (last && (!last->has_cookie || last->tcp)) continue; }
+      if (!genuine_said_so) fail(r, "C05.forged-failure-ended-the-request." + ff.kind, "request " + std::to_string(q.id) + " ended with " + ares_strerror(q.status) + "; the only reply with that rcode was a forged " + ff.kind + " packet");
+    }
     for (auto &kv : S.reqs) { const Req &q = kv.second; if (q.calls == 0) continue;
       for (uint32_t ser : q.serials) { auto it = bys.find(ser); if (it == bys.end()) { fail(r, "C05.data-from-nowhere", "request " + std::to_string(q.id) + " delivered serial " + std::to_string(ser) + " which no server or adversary ever produced"); continue; }
         const Prov &p = *it->second;
@@ -502,7 +520,9 @@ struct Scenario {
     // (replies are processed in the order they are read, but a whole batch may be read before the first one is processed: an accepted reply is certainly stored only once
     //  its request has completed - proc = that position in the event order)
     std::map<uint32_t, uint64_t> proc; for (auto &kv : S.reqs) if (kv.second.calls == 1) for (uint32_t ser : kv.second.serials) if (!proc.count(ser) || kv.second.ev_end < proc[ser]) proc[ser] = kv.second.ev_end;
-    auto surely = [&](const Prov &p) { return proc.count(p.serial) && dev.count(p.serial) && p.genuine; };
+    // ... provided cookies were still in play for the accepting query: after an EDNS downgrade or a switch to TCP the query matches replies without looking at cookies at all
+    auto cookie_in_play = [&](const Prov &p) { if (p.tx == (size_t)-1 || p.tx >= w.txs.size() || !proc.count(p.serial)) return false; const Tx &t0 = w.txs[p.tx]; const Tx *last = nullptr; for (auto &t2 : w.txs) if (t2.req == t0.req && t2.qid == t0.qid && t2.ev <= proc[p.serial]) last = &t2; return last && last->has_cookie && !last->tcp; };
+    auto surely = [&](const Prov &p) { return proc.count(p.serial) && dev.count(p.serial) && p.genuine && cookie_in_play(p); };
     for (size_t sv = 0; sv < nserv; sv++) {
       Bytes cur_client; int64_t client_since = 0; Addr cur_src; bool have = false; int64_t last_cause = -1;
       for (auto &t : w.txs) { if (t.server != (int)sv || !t.decodable) continue;
@@ -551,7 +571,10 @@ struct Scenario {
         if (p.carried_server_cookie && p.cookie_valid) continue;
         const Tx *last = nullptr; for (auto &t2 : w.txs) if (t2.req == t.req && t2.qid == t.qid && t2.t <= a.second) last = &t2; if (last && (!last->has_cookie || last->tcp)) continue;   // cookies no longer in play for this query
         // was support proven before, and since when have cookie-less replies been arriving?
-        int64_t proven_at = -1; for (auto &b : accepted) { auto jt = bys.find(b.first); if (jt != bys.end() && jt->second->server == (int)sv && jt->second->carried_server_cookie && jt->second->cookie_valid && b.second < a.second && b.second > proven_at) proven_at = b.second; }
+        // (a request with several sub-queries accepts each answer when it is read, not when the request completes: the cookie-less reply was accepted somewhere between
+        //  its delivery and the completion; the proof counts only if it was certainly accepted - its request completed - before that delivery)
+        int64_t a_earliest = delivered_at.count(a.first) ? std::min(delivered_at[a.first], a.second) : a.second;
+        int64_t proven_at = -1; for (auto &b : accepted) { auto jt = bys.find(b.first); if (jt != bys.end() && jt->second->server == (int)sv && jt->second->carried_server_cookie && jt->second->cookie_valid && b.second < a_earliest && b.second > proven_at) proven_at = b.second; }
         if (proven_at < 0) continue;
         int64_t first_missing = -1; for (auto &p2 : w.provs) if (p2.server == (int)sv && (!p2.carried_server_cookie || !p2.cookie_valid) && delivered_at.count(p2.serial) && delivered_at[p2.serial] >= proven_at && (first_missing < 0 || delivered_at[p2.serial] < first_missing)) first_missing = delivered_at[p2.serial];
         if (first_missing >= 0 && a.second - first_missing >= 120LL * 1000000) { timers++; continue; }
